@@ -20,7 +20,7 @@ import ast
 from typing import Dict, Optional, Tuple
 
 from .. import AnalysisError
-from ..paths import U, describe_path, is_S, strip_tags
+from ..paths import RECORDS, U, describe_path, is_S, strip_tags
 from ..report import Finding, RuleResult
 
 Poly = Dict[Tuple[str, ...], int]
@@ -327,6 +327,8 @@ def _cancellation(ctx, module, func, result) -> int:
     gparams = [a.arg for a in gfunc.args.args]
     x1, x2 = "π" + gparams[0], "π" + gparams[1]
     seen_results = set()
+    record_fields: list = []
+    unanalysed = []
     for path in ctx.paths_auto(module, gfunc):
       # where a (idx1, idx2, include, candidate) result is produced: returned, or yielded / collected by a private
       # generator that the function takes the first element of (next(gen, None))
@@ -336,6 +338,16 @@ def _cancellation(ctx, module, func, result) -> int:
         tup = None
         if step.kind == "return" and isinstance(node.value, ast.Tuple):
             tup = node.value
+        elif step.kind == "return" and isinstance(node.value, ast.Call) and isinstance(node.value.func, ast.Name) \
+                and node.value.func.id in RECORDS and len(RECORDS[node.value.func.id]) == 4:
+            # a private record (NamedTuple / dataclass) with the four values as fields, in field order
+            fields = RECORDS[node.value.func.id]
+            bound = {kw.arg: kw.value for kw in node.value.keywords if kw.arg}
+            for pos, arg in enumerate(node.value.args):
+                bound.setdefault(fields[pos], arg)
+            if all(f in bound for f in fields):
+                tup = ast.Tuple(elts=[bound[f] for f in fields], ctx=ast.Load())
+                record_fields[:] = fields
         elif step.kind == "stmt" and isinstance(node, ast.Expr) and isinstance(node.value, ast.Yield) \
                 and isinstance(node.value.value, ast.Tuple):
             tup = node.value.value
@@ -358,6 +370,14 @@ def _cancellation(ctx, module, func, result) -> int:
                 and len(cand.args) >= 2:
             num, den = cand.args[0], cand.args[1]
         if num is None:
+            helper_call = next((c for c in ast.walk(cand) if isinstance(c, ast.Call) and isinstance(c.func, ast.Name)
+                                and c.func.id in module.functions), None)
+            if helper_call is not None:
+                # the ratio is computed inside a same-module helper that cannot be inlined (return inside a loop): this
+                # clause gives no verdict for it (recorded in the evidence), the invariant clauses are unaffected
+                unanalysed.append(f"candidate computed by {helper_call.func.id}(...)")
+                n -= 0
+                continue
             raise AnalysisError(f"get_division_candidate: candidate is not a quotient: {U(cand)[:80]}")
         if isinstance(den, ast.Call) and (ctx.dotted(module, den.func) or "") in ("numpy.where",) and len(den.args) == 3:
             fill = den.args[2]
@@ -395,6 +415,8 @@ def _cancellation(ctx, module, func, result) -> int:
                 f"the returned mask '{U(inc)[:100]}' does not contain the conjunct {want_num} != 0: a step would be taken "
                 f"for elements whose term is already zero (no progress, non-termination)",
                 derivation=describe_path(path), construct="get_division_candidate: include mask"))
+    if unanalysed:
+        result.info["cancellation_clause_not_analysed"] = sorted(set(unanalysed))
     if n == 0:
         raise AnalysisError("get_division_candidate: no path returns (idx1, idx2, include, candidate)")
     # caller side: monomial of the step
@@ -439,6 +461,9 @@ def _cancellation(ctx, module, func, result) -> int:
         pows = [b for b in ast.walk(qpost) if isinstance(b, ast.BinOp) and isinstance(b.op, ast.Pow)
                 and isinstance(b.left, ast.Attribute) and b.left.attr == "indeterminants"]
         want = f"{rtxt}.exponents[{ctxt}[0]] - {dtxt}.exponents[{ctxt}[1]]"
+        wants = {want}
+        if len(record_fields) == 4:
+            wants.add(f"{rtxt}.exponents[{ctxt}.{record_fields[0]}] - {dtxt}.exponents[{ctxt}.{record_fields[1]}]")
 
         def short(text):
             return text.replace(ctxt, "<cand>").replace(rtxt, "<R>").replace(dtxt, "<D>")
@@ -446,13 +471,13 @@ def _cancellation(ctx, module, func, result) -> int:
         # alternative spelling: the monomial term built directly from its attributes
         builds = [c for c in ast.walk(qpost) if isinstance(c, ast.Call)
                   and (ctx.dotted(module, c.func) or "").rsplit(".", 1)[-1] in ("polynomial_from_attributes", "from_attributes")
-                  and want in U(c)]
+                  and any(w in U(c) for w in wants)]
         if not pows and not builds:
             raise AnalysisError("poly_divmod: monomial of the step is neither '<poly>.indeterminants ** <exponent difference>' "
                                 "nor a polynomial_from_attributes(exponents=[<exponent difference>], ...) term")
         for pw in pows:
             base_ok = U(pw.left.value) in (rtxt, dtxt)
-            ok = U(pw.right) == want and base_ok
+            ok = U(pw.right) in wants and base_ok
             result.ob("step monomial = indeterminants ** (dividend row idx1 - divisor row idx2)", ok, module.loc(post.orig),
                       short(U(pw.right))[:90])
             if not ok:
